@@ -22,37 +22,55 @@ Fixpoint span (p : N -> bool) (s : text) : text * text :=
   | [] => ([], [])
   end.
 
+(* the rest of s after the character c, if s starts with c *)
+Definition after (c : N) (s : text) : option text :=
+  match s with x :: r => if N.eqb x c then Some r else None | [] => None end.
+
 (* REPEATABILITY = \d+\.{2}[1-9]\d* at the head of s (longest match) *)
 Definition scan_repeatability (s : text) : option (text * text) :=
   let '(d1, r1) := span is_udigit s in
-  match d1, r1 with
-  | _ :: _, 46%N :: 46%N :: c :: r2 =>
-      if (49 <=? c)%N && (c <=? 57)%N then let '(d2, r3) := span is_udigit r2 in Some (d1 ++ [46; 46; c]%N ++ d2, r3) else None
-  | _, _ => None
+  match d1 with
+  | [] => None
+  | _ :: _ =>
+      match after 46 r1 with
+      | Some r1a =>
+          match after 46 r1a with
+          | Some (c :: r2) =>
+              if (49 <=? c)%N && (c <=? 57)%N then let '(d2, r3) := span is_udigit r2 in Some (d1 ++ [46; 46; c]%N ++ d2, r3) else None
+          | _ => None
+          end
+      | None => None
+      end
   end.
+
+Definition close_bracket (a : atom) (s : text) : option (atom * text) :=
+  match after 93 (skip_ws s) with Some r => Some (a, r) | None => None end.
 
 (* what follows a '[' : returns the atom and the rest after the closing ']' *)
 Definition scan_atom (s : text) : option (atom * text) :=
   let s := skip_ws s in
-  match s with
-  | 85%N :: 66%N :: c :: r =>                       (* UB1 | UB2 | UB3 *)
-      if (49 <=? c)%N && (c <=? 51)%N then
-        match skip_ws r with 93%N :: r' => Some (ATime [85; 66; c]%N, r') | _ => None end
-      else None
-  | _ =>
+  match after 85 s with
+  | Some s1 =>                                       (* UB1 | UB2 | UB3 *)
+      match after 66 s1 with
+      | Some (c :: r) => if (49 <=? c)%N && (c <=? 51)%N then close_bracket (ATime [85; 66; c]%N) r else None
+      | _ => None
+      end
+  | None =>
       let '(ds, r) := span is_ascii_digit s in
-      match ds, r with
-      | [], _ => None
-      | _, 80%N :: r1 =>                              (* PACKAGE_KEY, optional REPEATABILITY *)
-          let r1' := skip_ws r1 in
-          match r1' with
-          | 93%N :: r2 => Some (APkg (ds ++ [80%N]) None, r2)
-          | _ => match scan_repeatability r1' with
-                 | Some (rep, r2) => match skip_ws r2 with 93%N :: r3 => Some (APkg (ds ++ [80%N]) (Some rep), r3) | _ => None end
-                 | None => None
-                 end
+      match ds with
+      | [] => None
+      | _ :: _ =>
+          match after 80 r with
+          | Some r1 =>                                (* PACKAGE_KEY, optional REPEATABILITY *)
+              match close_bracket (APkg (ds ++ [80%N]) None) r1 with
+              | Some res => Some res
+              | None => match scan_repeatability (skip_ws r1) with
+                        | Some (rep, r2) => close_bracket (APkg (ds ++ [80%N]) (Some rep)) r2
+                        | None => None
+                        end
+              end
+          | None => close_bracket (AKey ds) r
           end
-      | _, _ => match skip_ws r with 93%N :: r' => Some (AKey ds, r') | _ => None end
       end
   end.
 
